@@ -340,9 +340,22 @@ pub fn serialize_directory(e: &[Entry]) -> Vec<u8> {
 	v
 }
 
+#[derive(Clone, Copy, Debug, PartialEq, Eq)]
+pub enum Section {
+	Directory,
+	Header,
+	Meta,
+}
+
 /// Encode a tile set (non-empty payloads) as PMTiles v3 with the given layout choices.
 /// Returns the file and a short description of the features actually used.
 pub fn encode(set: &TileSet, layout: &Layout) -> (Vec<u8>, Vec<&'static str>) {
+	encode_patched(set, layout, &mut |_, _| {})
+}
+
+/// Like `encode`, but `patch` may alter the raw bytes of directories, metadata and header
+/// before they are compressed / written.
+pub fn encode_patched(set: &TileSet, layout: &Layout, patch: &mut dyn FnMut(Section, &mut Vec<u8>)) -> (Vec<u8>, Vec<&'static str>) {
 	let mut used = vec![];
 	let mut mix = Mix::new(layout.seed as u64 ^ 0x9911);
 	let by_id: BTreeMap<u64, (&Coord, &Vec<u8>)> = set.tiles.iter().filter(|(_, b)| !b.is_empty()).map(|(c, b)| (tile_id(c), (c, b))).collect();
@@ -400,7 +413,12 @@ pub fn encode(set: &TileSet, layout: &Layout) -> (Vec<u8>, Vec<&'static str>) {
 
 	// directories
 	let internal = layout.internal;
-	let pack = |e: &[Entry]| util::compress(&serialize_directory(e), internal);
+	let patch_cell = std::cell::RefCell::new(patch);
+	let pack = |e: &[Entry]| {
+		let mut raw = serialize_directory(e);
+		(patch_cell.borrow_mut())(Section::Directory, &mut raw);
+		util::compress(&raw, internal)
+	};
 	let mut leaf_blobs: Vec<Vec<u8>> = vec![];
 	let mut levels = layout.leaf_levels.min(2);
 	let mut leaf_size = (layout.leaf_size.max(1)) as usize;
@@ -496,7 +514,9 @@ pub fn encode(set: &TileSet, layout: &Layout) -> (Vec<u8>, Vec<&'static str>) {
 
 	// metadata
 	let meta_raw = if layout.with_meta { set.meta.clone().unwrap_or_else(|| "{}".into()) } else { "{}".to_string() };
-	let meta = util::compress(meta_raw.as_bytes(), internal);
+	let mut meta_bytes = meta_raw.into_bytes();
+	(patch_cell.borrow_mut())(Section::Meta, &mut meta_bytes);
+	let meta = util::compress(&meta_bytes, internal);
 	if internal != Comp::Gzip {
 		used.push(if internal == Comp::None { "internal-none" } else { "internal-brotli" });
 	}
@@ -540,6 +560,8 @@ pub fn encode(set: &TileSet, layout: &Layout) -> (Vec<u8>, Vec<&'static str>) {
 	h.extend_from_slice(&(((g[0] + g[2]) * 5e6) as i32).to_le_bytes());
 	h.extend_from_slice(&(((g[1] + g[3]) * 5e6) as i32).to_le_bytes());
 	assert_eq!(h.len(), 127);
+	(patch_cell.borrow_mut())(Section::Header, &mut h);
+	h.resize(127, 0);
 	file[..127].copy_from_slice(&h);
 	used.sort();
 	used.dedup();
